@@ -820,4 +820,119 @@ theorem pfunOf_agree (ts : List (PT K)) (pts ρ : Env K) (h : ∀ t ∈ ts, ∀ 
 example : (pfunOf [PT.add (.c (1 : Rat)) (.mul (.c 2) (.var "t" 0))]).f ([("x", [5, 6])] ++ [("t", [3])]) = [7] := by decide +kernel
 
 
+/-! ### rotations in three dimensions -/
+
+theorem box3_spec {l : List (K × K × K)} {b : List (K × K)} (h : box3 l = some b) :
+    ∃ x0 x1 y0 y1 z0 z1, b = [(x0, x1), (y0, y1), (z0, z1)] ∧
+      ∀ p ∈ l, (x0 ≤ p.1 ∧ p.1 ≤ x1) ∧ (y0 ≤ p.2.1 ∧ p.2.1 ≤ y1) ∧ (z0 ≤ p.2.2 ∧ p.2.2 ≤ z1) := by
+  unfold box3 at h
+  split at h
+  · rename_i sx sy sz hx hy hz
+    simp only [Option.some.injEq] at h
+    obtain ⟨x0, x1⟩ := sx; obtain ⟨y0, y1⟩ := sy; obtain ⟨z0, z1⟩ := sz
+    refine ⟨x0, x1, y0, y1, z0, z1, h.symm, fun p hp => ⟨?_, ?_, ?_⟩⟩
+    · exact (span_spec hx).1 p.1 (List.mem_map_of_mem hp)
+    · exact (span_spec hy).1 p.2.1 (List.mem_map_of_mem hp)
+    · exact (span_spec hz).1 p.2.2 (List.mem_map_of_mem hp)
+  · simp at h
+
+/-- an affine function of three variables on a box is bounded below by its smallest corner value -/
+theorem affine_box3_lo (A B C q1 q2 q3 x0 x1 y0 y1 z0 z1 cx cy cz e lo : K)
+    (hx : x0 ≤ q1 ∧ q1 ≤ x1) (hy : y0 ≤ q2 ∧ q2 ≤ y1) (hz : z0 ≤ q3 ∧ q3 ≤ z1)
+    (h000 : lo ≤ A * (x0 - cx) + B * (y0 - cy) + C * (z0 - cz) + e) (h001 : lo ≤ A * (x0 - cx) + B * (y0 - cy) + C * (z1 - cz) + e)
+    (h010 : lo ≤ A * (x0 - cx) + B * (y1 - cy) + C * (z0 - cz) + e) (h011 : lo ≤ A * (x0 - cx) + B * (y1 - cy) + C * (z1 - cz) + e)
+    (h100 : lo ≤ A * (x1 - cx) + B * (y0 - cy) + C * (z0 - cz) + e) (h101 : lo ≤ A * (x1 - cx) + B * (y0 - cy) + C * (z1 - cz) + e)
+    (h110 : lo ≤ A * (x1 - cx) + B * (y1 - cy) + C * (z0 - cz) + e) (h111 : lo ≤ A * (x1 - cx) + B * (y1 - cy) + C * (z1 - cz) + e) :
+    lo ≤ A * (q1 - cx) + B * (q2 - cy) + C * (q3 - cz) + e := by
+  have a : A * x0 ≤ A * q1 ∨ A * x1 ≤ A * q1 := by
+    rcases le_total 0 A with hA | hA
+    · exact Or.inl (mul_le_mul_of_nonneg_left hx.1 hA)
+    · exact Or.inr (mul_le_mul_of_nonpos_left hx.2 hA)
+  have b : B * y0 ≤ B * q2 ∨ B * y1 ≤ B * q2 := by
+    rcases le_total 0 B with hB | hB
+    · exact Or.inl (mul_le_mul_of_nonneg_left hy.1 hB)
+    · exact Or.inr (mul_le_mul_of_nonpos_left hy.2 hB)
+  have c : C * z0 ≤ C * q3 ∨ C * z1 ≤ C * q3 := by
+    rcases le_total 0 C with hC | hC
+    · exact Or.inl (mul_le_mul_of_nonneg_left hz.1 hC)
+    · exact Or.inr (mul_le_mul_of_nonpos_left hz.2 hC)
+  rcases a with a | a <;> rcases b with b | b <;> rcases c with c | c <;> linarith
+
+theorem affine_box3_hi (A B C q1 q2 q3 x0 x1 y0 y1 z0 z1 cx cy cz e hi : K)
+    (hx : x0 ≤ q1 ∧ q1 ≤ x1) (hy : y0 ≤ q2 ∧ q2 ≤ y1) (hz : z0 ≤ q3 ∧ q3 ≤ z1)
+    (h000 : A * (x0 - cx) + B * (y0 - cy) + C * (z0 - cz) + e ≤ hi) (h001 : A * (x0 - cx) + B * (y0 - cy) + C * (z1 - cz) + e ≤ hi)
+    (h010 : A * (x0 - cx) + B * (y1 - cy) + C * (z0 - cz) + e ≤ hi) (h011 : A * (x0 - cx) + B * (y1 - cy) + C * (z1 - cz) + e ≤ hi)
+    (h100 : A * (x1 - cx) + B * (y0 - cy) + C * (z0 - cz) + e ≤ hi) (h101 : A * (x1 - cx) + B * (y0 - cy) + C * (z1 - cz) + e ≤ hi)
+    (h110 : A * (x1 - cx) + B * (y1 - cy) + C * (z0 - cz) + e ≤ hi) (h111 : A * (x1 - cx) + B * (y1 - cy) + C * (z1 - cz) + e ≤ hi) :
+    A * (q1 - cx) + B * (q2 - cy) + C * (q3 - cz) + e ≤ hi := by
+  have a : A * q1 ≤ A * x0 ∨ A * q1 ≤ A * x1 := by
+    rcases le_total 0 A with hA | hA
+    · exact Or.inr (mul_le_mul_of_nonneg_left hx.2 hA)
+    · exact Or.inl (mul_le_mul_of_nonpos_left hx.1 hA)
+  have b : B * q2 ≤ B * y0 ∨ B * q2 ≤ B * y1 := by
+    rcases le_total 0 B with hB | hB
+    · exact Or.inr (mul_le_mul_of_nonneg_left hy.2 hB)
+    · exact Or.inl (mul_le_mul_of_nonpos_left hy.1 hB)
+  have c : C * q3 ≤ C * z0 ∨ C * q3 ≤ C * z1 := by
+    rcases le_total 0 C with hC | hC
+    · exact Or.inr (mul_le_mul_of_nonneg_left hz.2 hC)
+    · exact Or.inl (mul_le_mul_of_nonpos_left hz.1 hC)
+  rcases a with a | a <;> rcases b with b | b <;> rcases c with c | c <;> linarith
+
+/-- **3-D rotation** (`Rotate` with an explicit 3×3 matrix, any matrix): the image `M (q − c) + c` of every
+    point `q` of the inner box lies in the box spanned by the extreme coordinates of the images of all eight
+    corners.  Together with `bbox_encloses` for the inner domain: the rotated domain is enclosed. -/
+theorem rotate3_encloses (bd : List (K × K)) (m c : List K) (box : List (K × K)) (q1 q2 q3 : K)
+    (hq : Inside bd [q1, q2, q3]) (hb : bboxRotate3 bd m c = some box) :
+    ∃ img, rotPt3 m c q1 q2 q3 = some img ∧ Inside box [img.1, img.2.1, img.2.2] := by
+  unfold Inside at hq
+  cases hq with
+  | cons h1 hq =>
+    cases hq with
+    | cons h2 hq =>
+      cases hq with
+      | cons h3 hq =>
+        cases hq
+        rename_i b1 b2 b3
+        obtain ⟨x0, x1⟩ := b1; obtain ⟨y0, y1⟩ := b2; obtain ⟨z0, z1⟩ := b3
+        simp only at h1 h2 h3
+        simp only [bboxRotate3] at hb
+        split at hb
+        · rename_i imgs himgs
+          match m, c with
+          | [a11, a12, a13, a21, a22, a23, a31, a32, a33], [cx, cy, cz] =>
+            simp only [mapOpt, rotPt3] at himgs
+            simp only [Option.some.injEq] at himgs
+            subst himgs
+            obtain ⟨X0, X1, Y0, Y1, Z0, Z1, rfl, hall⟩ := box3_spec hb
+            have c000 := hall _ List.mem_cons_self
+            have c001 := hall _ (List.mem_cons_of_mem _ List.mem_cons_self)
+            have c010 := hall _ (List.mem_cons_of_mem _ (List.mem_cons_of_mem _ List.mem_cons_self))
+            have c011 := hall _ (List.mem_cons_of_mem _ (List.mem_cons_of_mem _ (List.mem_cons_of_mem _ List.mem_cons_self)))
+            have c100 := hall _ (List.mem_cons_of_mem _ (List.mem_cons_of_mem _ (List.mem_cons_of_mem _ (List.mem_cons_of_mem _ List.mem_cons_self))))
+            have c101 := hall _ (List.mem_cons_of_mem _ (List.mem_cons_of_mem _ (List.mem_cons_of_mem _ (List.mem_cons_of_mem _ (List.mem_cons_of_mem _ List.mem_cons_self)))))
+            have c110 := hall _ (List.mem_cons_of_mem _ (List.mem_cons_of_mem _ (List.mem_cons_of_mem _ (List.mem_cons_of_mem _ (List.mem_cons_of_mem _ (List.mem_cons_of_mem _ List.mem_cons_self))))))
+            have c111 := hall _ (List.mem_cons_of_mem _ (List.mem_cons_of_mem _ (List.mem_cons_of_mem _ (List.mem_cons_of_mem _ (List.mem_cons_of_mem _ (List.mem_cons_of_mem _ (List.mem_cons_of_mem _ List.mem_cons_self)))))))
+            simp only at c000 c001 c010 c011 c100 c101 c110 c111
+            refine ⟨_, rfl, List.Forall₂.cons ⟨?_, ?_⟩ (List.Forall₂.cons ⟨?_, ?_⟩ (List.Forall₂.cons ⟨?_, ?_⟩ List.Forall₂.nil))⟩
+            · exact affine_box3_lo a11 a12 a13 q1 q2 q3 x0 x1 y0 y1 z0 z1 cx cy cz cx X0 h1 h2 h3 c000.1.1 c001.1.1 c010.1.1 c011.1.1 c100.1.1 c101.1.1 c110.1.1 c111.1.1
+            · exact affine_box3_hi a11 a12 a13 q1 q2 q3 x0 x1 y0 y1 z0 z1 cx cy cz cx X1 h1 h2 h3 c000.1.2 c001.1.2 c010.1.2 c011.1.2 c100.1.2 c101.1.2 c110.1.2 c111.1.2
+            · exact affine_box3_lo a21 a22 a23 q1 q2 q3 x0 x1 y0 y1 z0 z1 cx cy cz cy Y0 h1 h2 h3 c000.2.1.1 c001.2.1.1 c010.2.1.1 c011.2.1.1 c100.2.1.1 c101.2.1.1 c110.2.1.1 c111.2.1.1
+            · exact affine_box3_hi a21 a22 a23 q1 q2 q3 x0 x1 y0 y1 z0 z1 cx cy cz cy Y1 h1 h2 h3 c000.2.1.2 c001.2.1.2 c010.2.1.2 c011.2.1.2 c100.2.1.2 c101.2.1.2 c110.2.1.2 c111.2.1.2
+            · exact affine_box3_lo a31 a32 a33 q1 q2 q3 x0 x1 y0 y1 z0 z1 cx cy cz cz Z0 h1 h2 h3 c000.2.2.1 c001.2.2.1 c010.2.2.1 c011.2.2.1 c100.2.2.1 c101.2.2.1 c110.2.2.1 c111.2.2.1
+            · exact affine_box3_hi a31 a32 a33 q1 q2 q3 x0 x1 y0 y1 z0 z1 cx cy cz cz Z1 h1 h2 h3 c000.2.2.2 c001.2.2.2 c010.2.2.2 c011.2.2.2 c100.2.2.2 c101.2.2.2 c110.2.2.2 c111.2.2.2
+          | [], _ | [_], _ | [_, _], _ | [_, _, _], _ | [_, _, _, _], _ | [_, _, _, _, _], _ | [_, _, _, _, _, _], _
+          | [_, _, _, _, _, _, _], _ | [_, _, _, _, _, _, _, _], _ | _ :: _ :: _ :: _ :: _ :: _ :: _ :: _ :: _ :: _ :: _, _ =>
+            simp [mapOpt, rotPt3] at himgs
+          | [_, _, _, _, _, _, _, _, _], [] | [_, _, _, _, _, _, _, _, _], [_] | [_, _, _, _, _, _, _, _, _], [_, _]
+          | [_, _, _, _, _, _, _, _, _], _ :: _ :: _ :: _ :: _ =>
+            simp [mapOpt, rotPt3] at himgs
+        · simp at hb
+
+/-- the unit cube rotated by Rz(3/5,4/5)·Rx(5/13,12/13) about the origin; the seeded five-corner variant
+    would miss the corner image that attains a bound -/
+example : bboxRotate3 [((0 : Rat), 1), (0, 1), (0, 1)] [3/5, -4/13, 48/65, 4/5, 3/13, -36/65, 0, 12/13, 5/13] [0, 0, 0]
+    = some [(-4/13, 87/65), (-36/65, 67/65), (0, 17/13)] := by decide +kernel
+
+
 end TPV.Geom
